@@ -2,7 +2,7 @@
 
 use std::collections::BTreeMap;
 
-#[derive(Default, Debug)]
+#[derive(Default, Debug, Clone)]
 pub struct Stats {
     pub counters: BTreeMap<String, u64>,
     pub samples: Vec<String>,
